@@ -220,14 +220,39 @@ def write_hash_list(hash_list: MHLHashList, file_path: str):
     e.g. we create xml objects only for single elemnts like one media hash element and write it to disk
     before creating the next one"""
 
+    # set the file name early so we can use it to e.g. get the root path
+    hash_list.file_path = file_path
+    # render the head of the file once before anything is created on disk, so that creator info
+    # that XML can't represent (e.g. a control character in a comment) is reported without touching the folder
+    _creator_info_xml_element(hash_list)
+    _process_info_xml_element(hash_list)
+
     directory_path = os.path.dirname(file_path)
+    created_directory = False
     if not os.path.isdir(directory_path):
         os.mkdir(directory_path)
+        created_directory = True
 
     # write to a temporary file first and move it to its final name once it is complete,
     # so an interrupted run never leaves a half written manifest behind that can't be loaded anymore
     temp_file_path = file_path + ".tmp"
     file = open(temp_file_path, "wb")
+    try:
+        _write_hash_list_content(hash_list, file, file_path)
+        file.flush()
+        file.close()
+    except Exception:
+        # a hash list that can't be written (e.g. text that XML can't represent) leaves nothing behind,
+        # in particular no ascmhl folder without a chain file that all following commands refuse to load
+        file.close()
+        os.remove(temp_file_path)
+        if created_directory and len(os.listdir(directory_path)) == 0:
+            os.rmdir(directory_path)
+        raise
+    os.replace(temp_file_path, file_path)
+
+
+def _write_hash_list_content(hash_list: MHLHashList, file, file_path: str):
     file.write(b'<?xml version="1.0" encoding="UTF-8"?>\n<hashlist version="2.0" xmlns="urn:ASC:MHL:v2.0">\n')
     current_indent = "  "
 
@@ -264,9 +289,6 @@ def write_hash_list(hash_list: MHLHashList, file_path: str):
 
     current_indent = current_indent[:-2]
     _write_xml_string_to_file(file, "</hashlist>\n", current_indent)
-    file.flush()
-    file.close()
-    os.replace(temp_file_path, file_path)
 
 
 def _write_xml_element_to_file(file, xml_element, indent: str):
